@@ -207,7 +207,7 @@ CLAIMS: dict[str, tuple[str, str, str, str]] = {
         "balance_pairs, _postProcess; tie: `inline`) and emini_wellformed (Props/C02f.lean) proves for every source, rule subset with "
         "emphasis on, maxNesting and character classification that the inline stream is levelled from 0, balanced, and builds a tree. "
         "emini_tags_nested (Props/C02g.lean): its opening and closing tokens pair up by tag in stack order (the HTML written for them is "
-        "properly nested), from pairs_laminar via nest_of_desc. xmini_wellformed (Props/C02i.lean): the same with autolink (which pushes an opening and a closing token), html_inline and entity in the chain — the loop invariant generalised from 'all tokens have nesting 0' to 'balanced so far, delimiter records point at nesting-0 tokens' — eight of the twelve inline rules. m_wellformed (Props/C02h.lean): the same for the block sub-parser with html_block and lheading (nine of the eleven block rules; tie `mblock`). MISSING: the same through strikethrough's lone-marker swap (modelled, tied, "
+        "properly nested), from pairs_laminar via nest_of_desc. xmini_wellformed (Props/C02i.lean): the same with autolink (which pushes an opening and a closing token), html_inline and entity in the chain — the loop invariant generalised from 'all tokens have nesting 0' to 'balanced so far, delimiter records point at nesting-0 tokens' — eight of the twelve inline rules. m_wellformed (Props/C02h.lean): the same for the block sub-parser with html_block and lheading (nine of the eleven block rules; tie `mblock`). full_top_wellformed (Props/C02j.lean): the top-level stream MarkdownIt.parse returns end to end on the modelled sub-language is levelled from 0, balanced, ends at depth 0 and SyntaxTreeNode builds (the inline and text_join core rules change nothing of a block token but its children; tie `fullparse`). MISSING: the same through strikethrough's lone-marker swap (modelled, tied, "
         "total — not in the nesting theorems), link/image; and K5 for the remaining block/inline rules (monitored). Both are decided by the oracle: the property's predicate on every stream, recursively, "
         "incl. a bounded-exhaustive delimiter sweep. Known finding K-C02-1 (parseInline wrapper not flagged block, "
         "pinned by a test).",
@@ -274,7 +274,9 @@ CLAIMS: dict[str, tuple[str, str, str, str]] = {
         "stages (maps nest). The map contract is PROVED for code, fence, hr, heading, paragraph (Props/C03b.lean "
         "mapOK_*), giving the unconditional mini_staged for that sub-parser (model tied by the `miniblock` "
         "differential runs); with block quotes (Props/C03c.lean): loop_maps_final (stages end no later than the loop's "
-        "final line), mapOK of the quote rule (its tokens lie inside its patched map), q_staged; with lists (Props/C03d.lean): lChain_maps (a list's patched map encloses its items; items have non-empty, increasing, adjacent ranges; an item's map encloses its nested run), l_staged. m_staged (Props/C03e.lean) with html_block and lheading as well (a setext heading's opening token spans content and underline, its inline token the content lines). MISSING: for the other rules (table, reference) the map contract is a hypothesis (monitored on every real rule call); "
+        "final line), mapOK of the quote rule (its tokens lie inside its patched map), q_staged; with lists (Props/C03d.lean): lChain_maps (a list's patched map encloses its items; items have non-empty, increasing, adjacent ranges; an item's map encloses its nested run), l_staged. m_staged (Props/C03e.lean) with html_block and lheading as well (a setext heading's opening token spans content and underline, its inline token the content lines). full_staged (Props/C03f.lean): the same for the stream "
+        "MarkdownIt.parse returns end to end on the modelled sub-language — the inline and text_join core rules leave every block token's map alone (tie `fullparse`). "
+        "MISSING: for the other rules (table, reference) the map contract is a hypothesis (monitored on every real rule call); "
         "'starts/ends on a non-blank line', inline content lines and coverage of every non-blank line are decided "
         "by the oracle (the property's predicate on streams and env; bounded-exhaustive line documents). Known "
         "finding K-C03-1 (str.strip() drops lines made of Unicode blanks from inline content).",
